@@ -20,7 +20,7 @@ PROPERTY = "C07"
 LEVEL = "exploration"
 RULE = (
     "Grammar-generated patterns (distinct fields with legal repeat counts separated by literal/quoted/escaped "
-    "separators; duration and offset patterns from their own shape grammars; standard single-letter patterns) x every "
+    "separators; date-time patterns embedding ld<date pattern> / lt<time pattern>; duration and offset patterns from their own shape grammars; standard single-letter patterns) x every "
     "available culture (each visited at least once per type in every tier) x values of the type in all calendars. "
     "Applicability rules from the property are enforced by construction and counted: delimited numerics, text "
     "month/day names pairwise distinct and months 1-12, usable AM/PM designators, unambiguous era names, no repeated "
@@ -292,6 +292,13 @@ def _k_fpf(c) -> CaseInfo:
     tmpl = T.make_value(t, tj) if tj is not None else None
     if tmpl is not None and t in ("date", "datetime") and tmpl.calendar is not v.calendar:
         raise InvalidCase
+    lib_pattern = pattern
+    embedded = t == "datetime" and ("<" in pattern or ">" in pattern)
+    if embedded:
+        # ld<DP> / lt<TP> are equivalent to DP / TP spliced in; the oracles below work on the spliced pattern text
+        pattern = T.flatten_embedded(pattern)
+        if pattern is None:
+            return CaseInfo(False, "n/a:embedded-standard-or-unbalanced")
     why = applicable(t, pattern, cname, v)
     if why is None and t in ("date", "datetime") and (fields_of(pattern).get("M", 0) >= 3 or len(pattern) == 1):
         # the template value is formatted when the pattern is built, so its month must be nameable as well
@@ -302,7 +309,7 @@ def _k_fpf(c) -> CaseInfo:
             why = "month-beyond-12"
     if why is not None:
         return CaseInfo(False, f"n/a:{why}")
-    p = build_pattern(t, pattern, cname, v, tmpl)
+    p = build_pattern(t, lib_pattern, cname, v, tmpl)
     if p is None:
         return CaseInfo(False, "n/a:invalid-pattern")
     f = fields_of(pattern)
@@ -313,9 +320,9 @@ def _k_fpf(c) -> CaseInfo:
     if text == "":
         # every pattern documents that the empty string is unparsable; a pattern of optional fields only can emit it
         return CaseInfo(False, "n/a:empty-text")
-    need(p.format(v) == text, "determinism/format-twice", f"{pattern!r}")
-    p2 = build_pattern(t, pattern, cname, v, tmpl)
-    need(p2.format(v) == text, "determinism/fresh-pattern", f"{pattern!r} [{cname}]")
+    need(p.format(v) == text, "determinism/format-twice", f"{lib_pattern!r}")
+    p2 = build_pattern(t, lib_pattern, cname, v, tmpl)
+    need(p2.format(v) == text, "determinism/fresh-pattern", f"{lib_pattern!r} [{cname}]")
     # oracle 1: exact recovery of the projection
     exp = None
     if len(pattern) > 1 and t in ("time", "date", "datetime"):
@@ -344,27 +351,27 @@ def _k_fpf(c) -> CaseInfo:
             return CaseInfo(False, "n/a:not-representable")
         invariant_std = {"date": "Rr", "datetime": "oOrRsS"}.get(t, "")
         if len(pattern) == 1 and pattern in invariant_std and (tmpl is not None or getattr(getattr(v, "calendar", None), "id", "ISO") != "ISO"):
-            raise Mismatch(f"standard-invariant-pattern-ignores-template/{t}", f"{t} {pattern!r} {T.describe(t, v)} -> {text!r}: {r.exception}")
-        raise Mismatch(f"format-then-parse-fails/{t}", f"{t} {pattern!r} [{cname}] {T.describe(t, v)} -> {text!r}: {r.exception}")
+            raise Mismatch(f"standard-invariant-pattern-ignores-template/{t}", f"{t} {lib_pattern!r} {T.describe(t, v)} -> {text!r}: {r.exception}")
+        raise Mismatch(f"format-then-parse-fails/{t}", f"{t} {lib_pattern!r} [{cname}] {T.describe(t, v)} -> {text!r}: {r.exception}")
     back = r.value
     text2 = p.format(back)
     if text2 != text:
         cls = t
         if t in ("offset", "duration") and T.value_key(t, v) < 0 and T.value_key(t, back) == 0:
             cls += "/negative-zero"  # a lossy pattern printed "-0...": the sign of a value that truncates to zero
-        raise Mismatch(f"format-parse-format/{cls}", f"{t} {pattern!r} [{cname}] {T.describe(t, v)} -> {text!r} -> {T.describe(t, back)} -> {text2!r}")
+        raise Mismatch(f"format-parse-format/{cls}", f"{t} {lib_pattern!r} [{cname}] {T.describe(t, v)} -> {text!r} -> {T.describe(t, back)} -> {text2!r}")
     if exp is not None:
         if exp[0] == "time":
-            need(back.nanosecond_of_day == exp[1], "exact/time", f"{pattern!r} [{cname}] {T.describe(t, v)} -> {text!r} -> {back.nanosecond_of_day}, expected {exp[1]}")
+            need(back.nanosecond_of_day == exp[1], "exact/time", f"{lib_pattern!r} [{cname}] {T.describe(t, v)} -> {text!r} -> {back.nanosecond_of_day}, expected {exp[1]}")
         elif exp[0] == "date":
-            need(pyo.fields(back) == exp[1] and back.calendar is v.calendar, "exact/date", f"{pattern!r} [{cname}] {T.describe(t, v)} -> {text!r} -> {T.describe(t, back)}, expected {exp[1]}")
+            need(pyo.fields(back) == exp[1] and back.calendar is v.calendar, "exact/date", f"{lib_pattern!r} [{cname}] {T.describe(t, v)} -> {text!r} -> {T.describe(t, back)}, expected {exp[1]}")
         else:
-            need(pyo.fields(back.date) == exp[1] and back.nanosecond_of_day == exp[2] and back.calendar is v.calendar, "exact/datetime", f"{pattern!r} [{cname}] {T.describe(t, v)} -> {text!r} -> {T.describe(t, back)}, expected {exp[1:]}")
+            need(pyo.fields(back.date) == exp[1] and back.nanosecond_of_day == exp[2] and back.calendar is v.calendar, "exact/datetime", f"{lib_pattern!r} [{cname}] {T.describe(t, v)} -> {text!r} -> {T.describe(t, back)}, expected {exp[1:]}")
     nf = len(f)
     quoted = any(ch in pattern for ch in "'\"\\")
     cal_id = getattr(getattr(v, "calendar", None), "id", "ISO")
     nt = nf >= 2 and (cname != "" or cal_id != "ISO" or quoted)
-    return CaseInfo(nt, "fpf:exact" if exp is not None else "fpf")
+    return CaseInfo(nt, ("fpf:exact" if exp is not None else "fpf") + (":embedded" if embedded else ""))
 
 
 BUILTINS = {
@@ -462,7 +469,7 @@ def task_hyp(ctx: Ctx, shard: int, n: int, cultures: list[str]) -> None:
 
 
 PANEL = {
-    "date": ["uuuu'-'MM'-'dd", "dddd, d MMMM uuuu", "d MMM yyyy g", "M/d/yyyy", "yyyy'年'M'月'd'日'", "dd.MM.uuuu c", "MMMM d, uuuu", "MMM uuuu", "MMMM uuuu", "uuuu MMMM"],
+    "date": ["uuuu'-'MM'-'dd", "dddd, d MMMM uuuu", "d MMM yyyy g", "M/d/yyyy", "yyyy'年'M'月'd'日'", "dd.MM.uuuu c", "MMMM d, uuuu", "MMM uuuu", "MMMM uuuu", "uuuu MMMM", "d MMMM uuuu, dddd"],
     "time": ["HH:mm:ss", "h:mm:ss tt", "hh.mm t", "H:m:s.FFFFFFFFF", "HH:mm:ss.fff", "hh:mm tt"],
     "datetime": ["uuuu-MM-dd'T'HH:mm:ss.fffffffff", "dddd, d MMMM uuuu h:mm:ss tt", "M/d/yyyy g HH:mm", "d MMM uuuu H:mm:ss.FFF", "MMMM uuuu HH:mm", "MMM uuuu H"],
     "instant": ["uuuu-MM-dd'T'HH:mm:ss'Z'", "d MMM uuuu HH:mm:ss.FFFFFF"],
